@@ -51,9 +51,14 @@ def c20_1(ctx):
                     tiles.append((s, ("tag", f.fold(el[0])), 1, n))
                 else:
                     raise AnalysisError("cbor_encode: prefix form not recognised: %s" % ast.unparse(v))
-            elif isinstance(v, ast.BinOp) and isinstance(v.op, ast.Add) and isinstance(v.left, ast.Constant) and isinstance(v.right, ast.Call) and call_name(v.right) == "to_bytes":
-                w = f.fold(v.right.args[0])
-                order = f.fold(v.right.args[1])
+            elif isinstance(v, ast.BinOp) and isinstance(v.op, ast.Add) and isinstance(v.left, ast.Constant) and isinstance(v.right, ast.Call) \
+                    and call_name(v.right) in ("to_bytes", "int_to_big_endian", "int_to_little_endian"):
+                if call_name(v.right) == "to_bytes":
+                    w = f.fold(v.right.args[0])
+                    order = f.fold(v.right.args[1])
+                else:  # normal form of x.to_bytes(w, order)
+                    w = f.fold(v.right.args[1])
+                    order = "big" if call_name(v.right) == "int_to_big_endian" else "little"
                 tiles.append((s, ("tag", v.left.value[0]), w, n))
                 if order != "big":
                     out.append(ctx.bad(spec, "length after tag 0x%02x is written %s-endian; CBOR lengths are big-endian" % (v.left.value[0], order), v, mod, key="endian:%02x" % v.left.value[0]))
@@ -101,7 +106,7 @@ def c20_1(ctx):
                 rtiles[("inline", Folder(ctx.repo, rmod.name).fold(v.right))] = (s, 0)
             elif isinstance(v, ast.Subscript):
                 rtiles[("tag", s.witness())] = (s, 1)
-            elif isinstance(v, ast.Call) and "from_bytes" in ast.unparse(v.func):
+            elif isinstance(v, ast.Call) and ("from_bytes" in ast.unparse(v.func) or call_name(v) in ("big_endian_to_int", "little_endian_to_int")):
                 inner = v.args[0]
                 w = Folder(ctx.repo, rmod.name).fold(inner.args[0]) if isinstance(inner, ast.Call) else None
                 rtiles[("tag", s.witness())] = (s, w)
